@@ -57,6 +57,6 @@ def run_check(tier, seed, replay=None):
     sample = [json.loads(l) for l in open(trace).readlines()[:4]]
     write_evidence("C19", tier, seed, {"states": mc["states"], "transitions": mc["transitions"], "traces_validated_against_impl": info["histories"],
         "samples": sample, "events_validated": n, "model": {"module": "spec/MC_Storage.tla", "config": "MC_Storage_%s.cfg" % tier, "depth": mc["depth"], "edges_replayed": mc["edges"]},
-        "bulk": bulk, "exhaustive": False}, ["TLC 1.8.0", "element types: f64 with +0.0 / -0.0 (equal but distinguishable: a lookup must yield the stored one) and NaN, and a key/tag type whose equality is 'same key and different tag' (non-reflexive, yet stored values can equal the argument), and numbers equal iff at distance <= 1 (reflexive, symmetric, not transitive)"],
+        "bulk": bulk, "tlaps_unbounded_safety": (tlaps_check("StorageSafety.tla") if tier == "thorough" else {"tier": "thorough only"}), "exhaustive": False}, ["TLC 1.8.0", "element types: f64 with +0.0 / -0.0 (equal but distinguishable: a lookup must yield the stored one) and NaN, and a key/tag type whose equality is 'same key and different tag' (non-reflexive, yet stored values can equal the argument), and numbers equal iff at distance <= 1 (reflexive, symmetric, not transitive)"],
         time.time() - t0, len(rep.new))
     return rc
